@@ -63,7 +63,7 @@ LEVEL['C02'] = dict(
          'the library\'s starting value.',
     note=PARTIAL + 'Here: 0.2 mm / 2e-9 deg closure bounds; for the stand-alone converter the 1e-10 deg agreement itself (three Newton steps versus the exit iterate, 12th digit of 1/f) is search only.' + TRUST)
 LEVEL['C10'] = dict(
-    technique='Lean 4 theorems over the regenerated model (p + iq = derivative of the complex Krüger series by HasDerivAt, factorisation of the point scale, convergence terms and sign rule, call sites pass the call\'s ellipsoid and projection) + bitwise translator validation',
+    technique='Lean 4 theorems over the regenerated model (p + iq = derivative of the complex Krüger series by HasDerivAt, factorisation of the point scale, convergence terms and sign rule, call sites pass the call\'s ellipsoid and projection; on the sphere the scale is proved to be k0/sqrt(1-cos²φ sin²ω) and the convergence ±atan(sin φ tan ω), the exact spherical values) + bitwise translator validation',
     text='Machine-checked for all inputs: psf/convergence depend only on the call\'s ellipsoid and projection and psf is '
          'linear in the central scale; both conversions pass their own ellipsoid and projection; p + iq is the complex '
          'derivative of the series so sqrt(p²+q²) is its modulus; psf factorises into series scale × spherical TM scale × '
